@@ -145,6 +145,10 @@ def table():
     T["cumsum/accumulate"] = lambda r: ([arr(r, sh13(r), "int")], lambda M, a: numpy.add.accumulate(a), {"spelling": "numpy.add.accumulate(a)"}, [])
     T["nonzero"] = lambda r: ([arr(r, sh13(r))], lambda M, a: M.nonzero(a), {}, [])
     T["reshape"] = lambda r: ([arr(r, (2, 3))], lambda M, a: M.reshape(a, (3, 2)), {}, [])
+    # order="A" reads a Fortran-contiguous operand (a transposed view) in Fortran order (seeded change C11-16: the reshape went
+    # through C-ordered copies of the coefficients)
+    T["reshape/order-A-of-transposed"] = lambda r: (lambda o: ([arr(r, gen.choice(r, [(2, 3), (3, 2), (2, 2, 2)]))], lambda M, a: M.reshape(a.T, -1, order=o), {"order": o}, []))(
+        gen.choice(r, ["A", "A", "F", "C"]))
     T["transpose"] = lambda r: ([arr(r, sh13(r))], lambda M, a: M.transpose(a), {}, [])
     T["moveaxis"] = lambda r: ([arr(r, (2, 1, 3))], lambda M, a: M.moveaxis(a, 0, -1), {}, [])
     T["expand_dims"] = lambda r: ([arr(r)], lambda M, a: M.expand_dims(a, 0), {}, [])
@@ -459,6 +463,47 @@ def run_division(ctx):
                         ctx.fail(case, f"{M.__name__}.{nm}({n}, {d}) raised {type(err).__name__}: {str(err)[:100]} instead of FeatureNotSupported", ["division", f"fn:{nm}", "other-error"])
 
 
+def run_inplace_division(ctx):
+    """the division functions with the dividend itself as explicit output target, and the in-place operator: the values
+    numpy gives for the same call on the plain array (seeded change C11-15: an aligner that hands back the caller's own
+    object made `p /= d` clear the dividend before reading it)"""
+    rng = ctx.rng("inplace-division")
+    for _ in range(6 if ctx.quick else 60):
+        shape = gen.choice(rng, [(3,), (2, 2), ()])
+        a = (rng.integers(-6, 7, size=shape) * 1.0) + 0.5
+        d = gen.choice(rng, [2.0, 4.0, -0.5])
+        darr = numpy.full(shape, d) if rng.random() < .5 else d
+        routes = [("p /= d", lambda p, n=False: p.__itruediv__(darr) if not n else n.__itruediv__(darr)),
+                  ("numpy.true_divide(p, d, out=p)", None), ("numpoly.floor_divide(p, d, out=p)", None)]
+        for label, _f in routes:
+            p = numpoly.polynomial(a.copy())
+            n = a.copy()
+            ctx.evaluations += 1
+            ctx.count("inplace-division")
+            case = {"kind": "inplace-division", "call": label, "dividend": a.tolist(), "divisor": d}
+            try:
+                with warnings.catch_warnings():
+                    warnings.simplefilter("ignore")
+                    if label == "p /= d":
+                        p /= darr
+                        n /= darr
+                        got, want = p, n
+                    elif label.startswith("numpy.true_divide"):
+                        got = numpy.true_divide(p, darr, out=p) if p.ndim else None
+                        want = numpy.true_divide(n, darr, out=n) if n.ndim else None
+                    else:
+                        got = numpoly.floor_divide(p, darr, out=p) if p.ndim else None
+                        want = numpy.floor_divide(n, darr, out=n) if n.ndim else None
+            except Exception as err:  # noqa: BLE001
+                ctx.fail(case, f"{label} on the constant {a.tolist()} raised {type(err).__name__}: {str(err)[:100]}; numpy performs it", ["inplace-division", "raises"])
+                continue
+            if got is None:
+                continue
+            gv = numpy.asarray(got.tonumpy() if isinstance(got, numpoly.ndpoly) else got)
+            if gv.shape != numpy.asarray(want).shape or not numpy.array_equal(gv, numpy.asarray(want)):
+                ctx.fail(case, f"{label} on the constant {a.tolist()} with divisor {d}: {gv.tolist()}, numpy gives {numpy.asarray(want).tolist()}", ["inplace-division", "value"])
+
+
 def run(ctx):
     ctx.rule = RULE
     monitor = Monitor()
@@ -467,12 +512,16 @@ def run(ctx):
     run_narrow_reductions(ctx, monitor)
     run_model_constfns(ctx)
     run_division(ctx)
+    run_inplace_division(ctx)
     ctx.extra["argument_monitor"] = {"calls": monitor.calls, "mutations": monitor.events[:5]}
     ctx.sample({"function": "argmax", "array": [[3, 1, 3]], "axis": 1, "numpy": [0]})
 
 
 def replay(ctx, case):
     n = len(ctx.failures)
+    if case["kind"] == "inplace-division":
+        run_inplace_division(ctx)
+        return ctx.failures[n]["what"] if len(ctx.failures) > n else None
     if case["kind"] == "division":
         run_division(ctx)
         return ctx.failures[n]["what"] if len(ctx.failures) > n else None
